@@ -42,3 +42,12 @@ func (t *Transport) VerifHTTP3Enabled() bool { return t.t3 != nil }
 
 // VerifH2AllowHTTP (property C12 hook) reports the HTTP/2 transport's AllowHTTP flag (h2c).
 func (t *Transport) VerifH2AllowHTTP() bool { return t.t2 != nil && t.t2.AllowHTTP }
+
+// VerifH3DialState (property C12 hook) reports whether the HTTP/3 round tripper is still dialling the
+// authority of u: "off" (HTTP/3 not enabled), "none", "dialing", "done".
+func (t *Transport) VerifH3DialState(u *url.URL) string {
+	if t.t3 == nil {
+		return "off"
+	}
+	return t.t3.VerifDialState(u.Host)
+}
